@@ -22,6 +22,7 @@ func init() { Registry["C09"] = runC09 }
 // empty name "".  "AB2": two middlewares for A and two for B, each pair passed as a spread slice built on ONE backing array
 // that the caller reuses; "R2x": two router-level middlewares passed as a spread slice that the caller overwrites afterwards.
 // "^" (first op): all handlers share one subscriber object that the application itself wrapped in a transform decorator.
+// "&" (first op): all handlers share one publisher object.  "-A": handler A is stopped (it may be added again later).
 type c09Prog []string
 
 func c09Enumerate(maxLen int) []c09Prog {
@@ -172,6 +173,10 @@ func runC09(c *Ctx) error {
 	for _, f := range [][]string{
 		strings.Fields("+A +B AB2 R ! "), strings.Fields("R +A +B R2x AB2 A B"), strings.Fields("+A +B R2x ! +C C"),
 		strings.Fields("^ S +A +B S A R"), strings.Fields("^ +A S P +B ! +C S B"),
+		// one publisher object behind all handlers; decorators added while the router runs apply to the handlers started afterwards
+		strings.Fields("& P +A ! P +B ! P +C R !"), strings.Fields("& +A ! P S +B B ! +C P !"),
+		// a handler is stopped and another one is added afterwards: its middlewares are its own
+		strings.Fields("+A +B A B ! -A +C C !"), strings.Fields("R +A +B +C B A C ! -B +D D ! -A R !"),
 	} {
 		progs = append(progs, c09Prog(f))
 	}
@@ -228,6 +233,7 @@ func c09Run(r *tr.Run, prog c09Prog) {
 	nreg, npd, nsd := 0, 0, 0
 	pendingFailures := 0
 	var sharedSub *scripted.Sub
+	var sharedPub *scripted.Pub
 	var sharedWrapped message.Subscriber
 	ctx, cancel := context.WithCancel(context.Background())
 	defer cancel()
@@ -323,7 +329,28 @@ func c09Run(r *tr.Run, prog c09Prog) {
 	}
 	for _, op := range prog {
 		switch {
-		case op == "~" || op == "^":
+		case op == "~" || op == "^" || op == "&":
+		case strings.HasPrefix(op, "-"):
+			// the handler is stopped (and, once it has ended, forgotten by the router); the others -- and handlers added later -- are not affected
+			h := op[1:]
+			if handles[h] == nil || !started[h] {
+				continue
+			}
+			handles[h].Stop()
+			select {
+			case <-handles[h].Stopped():
+			case <-time.After(HangBound):
+				r.Emit("hung", "what", "Stopped() of a stopped handler")
+				return
+			}
+			time.Sleep(2 * time.Millisecond) // (the router unregisters the handler right after closing Stopped())
+			started[h] = false
+			for i, x := range order {
+				if x == h {
+					order = append(order[:i:i], order[i+1:]...)
+					break
+				}
+			}
 		case op == "AB2":
 			base := make([]message.HandlerMiddleware, 0, 4) // one backing array, reused by the caller
 			for _, h := range []string{"A", "B"} {
@@ -431,6 +458,12 @@ func c09Run(r *tr.Run, prog c09Prog) {
 				hsub = subs[h]
 			}
 			pubs[h] = scripted.NewPub("p" + h)
+			if len(prog) > 0 && prog[0] == "&" { // all handlers publish through ONE publisher object
+				if sharedPub == nil {
+					sharedPub = scripted.NewPub("pshared")
+				}
+				pubs[h] = sharedPub
+			}
 			r.Emit("addh", "h", h)
 			handles[h] = router.AddHandler(regName(h), "t"+h, hsub, "out"+h, pubs[h], func(msg *message.Message) ([]*message.Message, error) {
 				return []*message.Message{message.NewMessage(msg.UUID+".o", nil)}, nil
